@@ -518,7 +518,7 @@ theorem emitNode_spec (hy : Hyp g inp E0) : ∀ (fuel : Nat), SpecAt g inp env0 
         exact List.mem_cons_of_mem _ hn
     | pass c st1 hpl hc he =>
       subst he
-      obtain ⟨hden, hck⟩ := pass_sound (inp := inp) hy.wf hpl hsn
+      obtain ⟨hden, hck⟩ := pass_sound (inp := inp) hy.wf hy.shape hpl hsn
       have hin1 : HIn g inp env0 st1.memo :=
         fun j m nm hm hp => hin j m nm (List.mem_cons_of_mem _ hm) hp
       obtain ⟨env1, hp1, hm1⟩ := IH c st r st1 env hc (hskids c hck) hi hin1
